@@ -58,7 +58,7 @@ struct Obs {
 
 /// Run `word` with shapes st (type T) / su (type U). Returns the final bytes and what the
 /// monitor saw. `complete`: use the complete Writer (F letters are skipped: it has no finalize).
-fn run_word(word: &[u8], st: &Shape, su: &Shape, t: i32, u: i32, complete: bool) -> (Vec<Vec<u8>>, Obs, Vec<u8>) {
+fn run_word(word: &[u8], st: &Shape, su: &Shape, t: i32, u: i32, complete: bool, bulk_tail: bool) -> (Vec<Vec<u8>>, Obs, Vec<u8>) {
     let (a, b, c) = (Dest::new(), Dest::new(), Dest::new());
     let mut obs = Obs::default();
     let mut kept: Vec<u8> = vec![]; // the history with the rejected calls removed (letters relative to the file type)
@@ -111,6 +111,22 @@ fn run_word(word: &[u8], st: &Shape, su: &Shape, t: i32, u: i32, complete: bool)
         for d in [&a, &b, &c] {
             d.set_epoch(9999);
         }
+        if bulk_tail {
+            // the bulk route consumes the writer: offering pairs of the foreign type must fail
+            // and leave nothing behind (its own drop runs inside the call, so the monitor
+            // compares the final bytes rather than the epoch)
+            let foreign = if file_t == t { su } else { st };
+            let r0 = row(900);
+            let r1 = row(901);
+            let res = with_concrete!(foreign, x => w.write_shapes_and_records(vec![(x, &r0), (x, &r1)]));
+            obs.rejected += 1;
+            match res {
+                Err(Error::MismatchShapeType { requested, actual }) if requested as i32 == file_t && actual as i32 == other_t => {}
+                Err(e) => obs.bad.push(("bulk-result", J::s(err_class(&e)))),
+                Ok(()) => obs.bad.push(("bulk-result", J::s("Ok(()) for pairs of another shape type"))),
+            }
+            return (vec![a.data(), b.data(), mask_dbf(c.data())], obs, kept);
+        }
     } else {
         let mut w = ShapeWriter::with_shx(a.clone(), b.clone());
         let mut accepted_any = false;
@@ -140,6 +156,17 @@ fn run_word(word: &[u8], st: &Shape, su: &Shape, t: i32, u: i32, complete: bool)
         }
         a.set_epoch(9999);
         b.set_epoch(9999);
+        if bulk_tail {
+            let foreign = if file_t == t { su } else { st };
+            let res = with_concrete!(foreign, x => w.write_shapes(vec![x, x]));
+            obs.rejected += 1;
+            match res {
+                Err(Error::MismatchShapeType { requested, actual }) if requested as i32 == file_t && actual as i32 == other_t => {}
+                Err(e) => obs.bad.push(("bulk-result", J::s(err_class(&e)))),
+                Ok(()) => obs.bad.push(("bulk-result", J::s("Ok(()) for shapes of another type"))),
+            }
+            return (vec![a.data(), b.data(), mask_dbf(c.data())], obs, kept);
+        }
     }
     (vec![a.data(), b.data(), mask_dbf(c.data())], obs, kept)
 }
@@ -210,15 +237,19 @@ pub fn run(ctx: &Ctx) -> Report {
             if complete && word.contains(&F) {
                 continue; // the complete writer has no finalize: its alphabet is {W_T, W_U}
             }
-            let case = format!("c10:T{}:U{}:{}:w{}", t, u, if complete { "writer" } else { "shapewriter" }, wi);
+            for bulk_tail in [false, true] {
+            let case = format!("c10:T{}:U{}:{}:w{}{}", t, u, if complete { "writer" } else { "shapewriter" }, wi, if bulk_tail { ":bulk" } else { "" });
             if !ctx.want(&case) {
                 continue;
+            }
+            if bulk_tail {
+                rep.count("bulk_route_rejections(write_shapes / write_shapes_and_records)", 1);
             }
             rep.eval();
             rep.class(if complete { "Writer(shp+shx+dbf)" } else { "ShapeWriter(shp+shx)" });
             rep.nontrivial(&case);
             let out = panicmon::catch(|| {
-                let (bytes, obs, kept) = run_word(word, &st, &su, t, u, complete);
+                let (bytes, obs, kept) = run_word(word, &st, &su, t, u, complete, bulk_tail);
                 let filtered = run_filtered(word, &kept, &st, &su, complete);
                 (bytes, obs, filtered)
             });
@@ -252,6 +283,7 @@ pub fn run(ctx: &Ctx) -> Report {
             }
             if wi % 61 == 7 {
                 rep.sample(|| detail(J::s(format!("case {}", case))));
+            }
             }
         }
     });
